@@ -505,8 +505,10 @@ def check(rep):
             else:
                 jobs.append((e.regex, conv, e.flags))
         uniq = sorted(set(jobs))
-        with mp.get_context("fork").Pool(min(16, os.cpu_count() or 4)) as pool:
-            res = pool.map(equiv_job, uniq, chunksize=4)
+        res, perr = common.pmap(equiv_job, uniq, timeout=3000, chunk=4)
+        if perr:
+            rep.inconc("pattern equivalence queries: " + perr)
+            res = [("unknown:" + perr, None)] * len(uniq)
         bad = [(j, r) for j, r in zip(uniq, res) if r[0] != "unsat"]
         rep.sections["pattern_conversion"] = {"extractors": len(exts), "identical_after_conversion": same, "changed": len(jobs), "distinct_changed": len(uniq), "equivalence_verdicts": {k: sum(1 for r in res if r[0] == k) for k in {r[0] for r in res}}, "flag_mismatches": len(flag_bad)}
         rep.queries += 2 * len(uniq)
